@@ -109,6 +109,9 @@ func checkC07Read(c c07Read) core.Outcome {
 			return core.Outcome{Skip: true} // not a well-formed input
 		}
 	}
+	if _, known := faultIdentities[c.Error]; c.Error != "" && !known {
+		return core.Failf("HARNESS: unknown error identity %q in the case", c.Error)
+	}
 	rd := &envio.FaultReader{Data: data, At: c.At, Forever: c.Forever, WithData: c.WithData, OneByte: c.OneByte, Err: faultIdentities[c.Error]}
 	horizon := len(ref) + 16
 	items, p, over := f.Read(rd, horizon)
